@@ -32,6 +32,7 @@ import (
 	"github.com/google/tink/go/keyset"
 	"google.golang.org/protobuf/encoding/protowire"
 
+	"github.com/hyperledger/aries-framework-go/component/kmscrypto/doc/util/fingerprint"
 	"github.com/hyperledger/aries-framework-go/component/kmscrypto/doc/util/jwkkid"
 	kmscomp "github.com/hyperledger/aries-framework-go/component/kmscrypto/kms"
 	"github.com/hyperledger/aries-framework-go/component/kmscrypto/kms/localkms"
@@ -45,13 +46,14 @@ import (
 var kmsKeyTypes = map[string]kmsapi.KeyType{
 	"ed25519": kmsapi.ED25519Type, "p256der": kmsapi.ECDSAP256TypeDER, "p256": kmsapi.ECDSAP256TypeIEEEP1363,
 	"p384": kmsapi.ECDSAP384TypeIEEEP1363, "p521": kmsapi.ECDSAP521TypeIEEEP1363,
-	"x25519kw": kmsapi.X25519ECDHKWType, "p256kw": kmsapi.NISTP256ECDHKWType,
+	"x25519kw": kmsapi.X25519ECDHKWType, "p256kw": kmsapi.NISTP256ECDHKWType, "p384kw": kmsapi.NISTP384ECDHKWType,
+	"p521kw": kmsapi.NISTP521ECDHKWType,
 	"aes256gcm": kmsapi.AES256GCMType, "hmac": kmsapi.HMACSHA256Tag256Type, "chacha": kmsapi.ChaCha20Poly1305Type,
 	"bbs": kmsapi.BLS12381G2Type, "secp256k1": kmsapi.ECDSASecp256k1TypeIEEEP1363,
 }
 
 var kmsAsymmetric = map[string]bool{"ed25519": true, "p256der": true, "p256": true, "p384": true, "p521": true,
-	"x25519kw": true, "p256kw": true, "bbs": true, "secp256k1": true}
+	"x25519kw": true, "p256kw": true, "p384kw": true, "p521kw": true, "bbs": true, "secp256k1": true}
 
 // recKMSStore: the spi/kms.Store given to localkms: records every Put, can freeze.
 type recKMSStore struct {
@@ -598,7 +600,7 @@ func kmsRun(input string, c06 bool) string {
 				}
 				// ... and the id another party derives from the did:key form of the exported key?
 				// (key agreement keys and Ed25519, the types kmsdidkey derives key ids for; created keys only)
-				if f[0] == "import" || !(base == "ed25519" || base == "x25519kw" || base == "p256kw") {
+				if f[0] == "import" || !(base == "ed25519" || base == "x25519kw" || base == "p256kw" || base == "p384kw" || base == "p521kw") {
 				} else if dk, e := kmsdidkey.BuildDIDKeyByKeyType(pub, kmsKeyTypes[base]); e != nil {
 					o += "d-"
 				} else if pk, e := kmsdidkey.EncryptionPubKeyFromDIDKey(dk); e != nil {
@@ -607,6 +609,23 @@ func kmsRun(input string, c06 bool) string {
 					o += "d1"
 				} else {
 					o += "d0"
+				}
+				// the did:key another party builds from the public JWK is the did:key built from the key itself (NIST key
+				// agreement keys; half of the P-521 keys and 1 in 256 of the others have a leading zero coordinate byte)
+				if f[0] != "import" && (base == "p256kw" || base == "p384kw" || base == "p521kw") {
+					dk1, e1 := kmsdidkey.BuildDIDKeyByKeyType(pub, kmsKeyTypes[base])
+					j, e2 := jwkkid.BuildJWK(pub, kmsKeyTypes[base])
+					switch {
+					case e1 != nil || e2 != nil:
+						o += "j?"
+					default:
+						dk2, _, e3 := fingerprint.CreateDIDKeyByJwk(j)
+						if e3 == nil && dk1 == dk2 {
+							o += "j1"
+						} else {
+							o += "j0"
+						}
+					}
 				}
 			} else {
 				o += ":-"
@@ -737,7 +756,8 @@ func kmsGen(r *Rng, tier string, c06 bool) []string {
 	if tier == "thorough" {
 		n = 12000
 	}
-	kts := []string{"ed25519", "p256der", "p256", "p384", "p521", "x25519kw", "p256kw", "aes256gcm", "hmac", "chacha", "bbs", "secp256k1"}
+	kts := []string{"ed25519", "p256der", "p256", "p384", "p521", "x25519kw", "p256kw", "p384kw", "p521kw", "p521kw", "aes256gcm", "hmac",
+		"chacha", "bbs", "secp256k1"}
 	locks := []string{"raw", "rawbin", "hkdf", "pbkdf2"}
 	var out []string
 	for i := 0; i < n; i++ {
